@@ -50,25 +50,38 @@ func ruleP09Tables(p *Prog, r *Report) {
 	// Lines.ToString: text + canonicalLineEnding for every line
 	ts := p.method("klog/parser", "Lines", "ToString")
 	if r.anchorFn(rule, ts, "parser.Lines.ToString") {
-		ok := false
-		for _, ret := range returnsOf(ts) {
-			phis, ins := phiCycle(retResult(ret, 0))
-			for _, in := range ins {
-				b, isB := in.(*ssa.BinOp)
-				if !isB || b.Op != token.ADD {
-					continue
-				}
+		rets := returnsOf(ts)
+		ok := len(rets) > 0
+		for _, ret := range rets {
+			// an accumulator (`+=` or strings.Builder) that starts empty and receives, per line and
+			// in this order, the line's Text and the canonical line ending
+			evs, init, isAcc := appendEvents(retResult(ret, 0))
+			if !isAcc || init != "" || !orderedEvents(evs) {
+				ok = false
+				continue
+			}
+			var seq []string
+			for _, e := range evs {
 				var leaves []ssa.Value
-				catLeaves(b, &leaves, 0)
-				if len(leaves) == 3 {
-					ph, isPhi := strip(leaves[0]).(*ssa.Phi)
-					_, fld := fieldLoad(leaves[1])
-					u, isU := strip(leaves[2]).(*ssa.UnOp)
-					only, _ := onlyLoopGuards(b.Block())
-					if isPhi && phis[ph] && fld == "Text" && isU && u.X == ssa.Value(ge) && only {
-						ok = true
+				catLeaves(e.val, &leaves, 0)
+				for _, l := range leaves {
+					if s, isS := constString(l); isS && s == "" {
+						continue
+					}
+					if base, fld := fieldLoad(l); fld == "Text" && rangeElemOf(base) != nil && strip(rangeElemOf(base)) == ssa.Value(ts.Params[0]) {
+						seq = append(seq, "Text")
+					} else if u, isU := strip(l).(*ssa.UnOp); isU && u.X == ssa.Value(ge) {
+						seq = append(seq, "LE")
+					} else {
+						seq = append(seq, "?")
 					}
 				}
+				if only, _ := onlyLoopGuards(e.at.Block()); !only {
+					ok = false
+				}
+			}
+			if strings.Join(seq, "+") != "Text+LE" {
+				ok = false
 			}
 		}
 		r.check(ok, rule, "Lines.ToString", p.pos(ts.Pos()), "output = every line's text followed by the canonical line ending", "Lines.ToString does not emit every line followed by the canonical line ending")
@@ -85,11 +98,12 @@ func ruleP09Tables(p *Prog, r *Report) {
 			okAll = only && coll != nil && strip(coll) == ssa.Value(sr.Params[1]) && strip(cs[0].Common().Args[0]) == ssa.Value(sr.Params[0])
 		}
 		r.check(okAll, rule, "all-records", p.pos(sr.Pos()), "every record is serialised, in order, with the serialiser given", "not every record is serialised with the given serialiser")
-		// the separator: an append of a Line with empty text guarded by index < len-1
+		// the separator: an append of a Line with empty text, either after the record and guarded
+		// by "not the last index", or before the record and guarded by "not the first index"
 		okSep := false
 		eachInstr(sr, func(in ssa.Instruction) {
 			st, ok := in.(*ssa.Store)
-			if !ok {
+			if !ok || len(cs) != 1 {
 				return
 			}
 			fa, ok := st.Addr.(*ssa.FieldAddr)
@@ -100,19 +114,22 @@ func ruleP09Tables(p *Prog, r *Report) {
 			if !isS || s != "" {
 				return
 			}
+			after := cs[0].Block().Dominates(st.Block())
+			nGuards, good := 0, false
 			for _, g := range guardsOf(st.Block()) {
-				bo, isB := g.Cond.(*ssa.BinOp)
-				if !isB || !g.Pol {
+				if isLoopGuard(g) {
 					continue
 				}
-				// i < len(rs) - 1   (i the range index itself)
-				if isLoopGuard(g) || !isRangeIndex(bo.X) {
-					continue
+				nGuards++
+				switch indexCond(g, sr.Params[1]) {
+				case "not-last":
+					good = after
+				case "not-first":
+					good = !after && g.If != nil && g.If.Block().Dominates(cs[0].Block())
 				}
-				d := polyOf(bo.Y)
-				if (bo.Op == token.LSS || bo.Op == token.NEQ) && d.C == -1 && len(d.Terms) == 1 {
-					okSep = true
-				}
+			}
+			if good && nGuards == 1 {
+				okSep = true
 			}
 		})
 		r.check(okSep, rule, "separator", p.pos(sr.Pos()), "exactly one blank line after every record but the last", "records are not separated by exactly one blank line (guard is not index < len-1)")
@@ -257,31 +274,17 @@ func ruleP09Complete(p *Prog, r *Report) {
 			r.check(only, rule, "entries", p.instrPos(l.st), "every entry is emitted on a singly indented line", "not every entry is emitted")
 		case sig == "IND+IND+s.Summary":
 			// i >= 1
-			okC := false
-			for _, g := range guardsOf(l.st.Block()) {
-				if bo, isB := g.Cond.(*ssa.BinOp); isB && g.Pol && isRangeIndex(bo.X) {
-					k, _ := constInt(bo.Y)
-					if (bo.Op == token.GEQ && k == 1) || (bo.Op == token.GTR && k == 0) {
-						okC = true
-					}
-				}
-			}
+			lo, hi := indexBounds(guardsOf(l.st.Block()))
+			okC := lo == 1 && hi == -1
 			sawCont = okC
 			r.check(okC, rule, "entry-summary:continuation", p.instrPos(l.st), "every entry-summary line after the first is emitted on its own doubly indented line", "continuation lines of an entry summary are not all emitted doubly indented")
 		case strings.HasPrefix(sig, "PREV+\" \"+s.Summary"):
 			// first line: i == 0 && l != ""
-			var zero, nonEmpty bool
+			var nonEmpty bool
+			_, hi := indexBounds(guardsOf(l.st.Block()))
+			zero := hi == 0
 			for _, g := range guardsOf(l.st.Block()) {
-				bo, isB := g.Cond.(*ssa.BinOp)
-				if !isB || !g.Pol {
-					continue
-				}
-				if isRangeIndex(bo.X) {
-					if k, isK := constInt(bo.Y); isK && k == 0 && bo.Op == token.EQL {
-						zero = true
-					}
-				}
-				if s, isS := constString(bo.Y); isS && s == "" && bo.Op == token.NEQ {
+				if x, isF := nonEmptyStr(g); isF && x != nil {
 					nonEmpty = true
 				}
 			}
@@ -404,4 +407,152 @@ func catLeaves(v ssa.Value, out *[]ssa.Value, depth int) {
 		return
 	}
 	*out = append(*out, v)
+}
+
+// indexCond classifies a guard on the index of a range loop over coll: "not-last" (i < len-1 in
+// any spelling: i+1 < len, i != len-1, len-1 > i, i <= len-2, negated forms on the other edge) or
+// "not-first" (i > 0, i != 0, i >= 1, 0 < i).
+func indexCond(g Guard, coll ssa.Value) string {
+	bo, ok := normCmp(g.Cond)
+	if !ok || !isIntType(bo.X.Type()) {
+		return ""
+	}
+	op := bo.Op
+	if !g.Pol {
+		op = map[token.Token]token.Token{token.LSS: token.GEQ, token.GEQ: token.LSS, token.GTR: token.LEQ, token.LEQ: token.GTR, token.EQL: token.NEQ, token.NEQ: token.EQL}[op]
+	}
+	d := polySub(polyOf(bo.X), polyOf(bo.Y))
+	// normalise to e < 0 or e != 0
+	e := newPoly()
+	switch op {
+	case token.LSS, token.NEQ:
+		e.addScaled(d, 1)
+	case token.GTR:
+		e.addScaled(d, -1)
+	case token.LEQ:
+		e.addScaled(d, 1)
+		e.C--
+	case token.GEQ:
+		e.addScaled(d, -1)
+		e.C--
+	default:
+		return ""
+	}
+	// e = a*ph + b*len(coll) + C with the range index i = ph + 1
+	var a, b int64
+	for k, c := range e.Terms {
+		v := deref(e.leafV[k])
+		if ph, isPhi := v.(*ssa.Phi); isPhi && isRangePhi(ph) {
+			a += c
+			continue
+		}
+		if call, isC := v.(*ssa.Call); isC {
+			if bi, isB := call.Call.Value.(*ssa.Builtin); isB && bi.Name() == "len" && sameValue(call.Call.Args[0], coll) {
+				b += c
+				continue
+			}
+		}
+		return ""
+	}
+	c := e.C - a // in terms of i
+	neq := op == token.NEQ
+	switch {
+	case a == 1 && b == -1 && c == 1, neq && a == -1 && b == 1 && c == -1:
+		return "not-last" // i - len + 1 < 0 (or != 0)
+	case a == -1 && b == 0 && c == 0, neq && a == 1 && b == 0 && c == 0:
+		return "not-first" // -i < 0 (or i != 0)
+	}
+	return ""
+}
+
+// isRangePhi: the hidden counter of a range loop (starts at -1, increased by one per iteration).
+func isRangePhi(ph *ssa.Phi) bool {
+	for _, e := range ph.Edges {
+		if b, ok := e.(*ssa.BinOp); ok && b.Op == token.ADD && b.X == ssa.Value(ph) {
+			if k, isK := constInt(b.Y); isK && k == 1 {
+				continue
+			}
+		}
+		if k, ok := constInt(e); ok && k == -1 {
+			continue
+		}
+		return false
+	}
+	return true
+}
+
+// indexBounds: what the guards imply for the index of the enclosing range loop (which is >= 0):
+// lo <= index <= hi (hi == -1: unbounded).  Any spelling and polarity of a comparison of the
+// index with a constant counts.
+func indexBounds(gs []Guard) (lo, hi int64) {
+	lo, hi = 0, -1
+	tighten := func(op token.Token, k int64) {
+		switch op {
+		case token.EQL:
+			if k > lo {
+				lo = k
+			}
+			if hi < 0 || k < hi {
+				hi = k
+			}
+		case token.GEQ:
+			if k > lo {
+				lo = k
+			}
+		case token.GTR:
+			if k+1 > lo {
+				lo = k + 1
+			}
+		case token.LEQ:
+			if hi < 0 || k < hi {
+				hi = k
+			}
+		case token.LSS:
+			if hi < 0 || k-1 < hi {
+				hi = k - 1
+			}
+		case token.NEQ:
+			if k == lo {
+				lo = k + 1
+			}
+		}
+	}
+	for _, g := range gs {
+		if isLoopGuard(g) {
+			continue
+		}
+		bo, ok := normCmp(g.Cond)
+		if !ok {
+			continue
+		}
+		op, x, y := bo.Op, bo.X, bo.Y
+		if !isRangeIndex(strip(x)) && isRangeIndex(strip(y)) {
+			x, y = y, x
+			op = map[token.Token]token.Token{token.LSS: token.GTR, token.GTR: token.LSS, token.LEQ: token.GEQ, token.GEQ: token.LEQ, token.EQL: token.EQL, token.NEQ: token.NEQ}[op]
+		}
+		k, isK := constInt(y)
+		if !isRangeIndex(strip(x)) || !isK {
+			continue
+		}
+		if !g.Pol {
+			op = map[token.Token]token.Token{token.LSS: token.GEQ, token.GEQ: token.LSS, token.GTR: token.LEQ, token.LEQ: token.GTR, token.EQL: token.NEQ, token.NEQ: token.EQL}[op]
+		}
+		tighten(op, k)
+	}
+	return
+}
+
+// nonEmptyStr: the guard establishes that a string (or list) x is not empty: x != "", the other
+// edge of x == "", or any comparison of len(x) that fails for 0.
+func nonEmptyStr(g Guard) (ssa.Value, bool) {
+	if bo, ok := normCmp(g.Cond); ok && (bo.Op == token.EQL || bo.Op == token.NEQ) {
+		x, y := bo.X, bo.Y
+		if s, isS := constString(x); isS && s == "" {
+			x, y = y, x
+		}
+		if s, isS := constString(y); isS && s == "" && (bo.Op == token.NEQ) == g.Pol {
+			return x, true
+		}
+	}
+	return nonEmptyFact(g)
 }
